@@ -114,6 +114,7 @@ type Job struct {
 	// Render lets the caller name symbolic return values (default: rendered expr).
 	MaxSteps  int
 	Undecided []string // constructs the interpreter could not model (filled by Run)
+	normSyms  map[string]constant.Value
 }
 
 func b2c(b bool) constant.Value { return constant.MakeBool(b) }
@@ -127,6 +128,18 @@ func (j *Job) Eval(env *Env, e ast.Expr) constant.Value {
 	}
 	if v, ok := env.Syms[core.ExprStr(e)]; ok {
 		return v
+	}
+	if be, ok := e.(*ast.BinaryExpr); ok && core.IsCmp(be.Op) {
+		// inputs are keyed by a rendered expression: accept the mirrored spelling of a comparison (b > a for a < b)
+		if j.normSyms == nil {
+			j.normSyms = map[string]constant.Value{}
+			for k, v := range env.Syms {
+				j.normSyms[core.NormPat(k)] = v
+			}
+		}
+		if v, ok := j.normSyms[core.NormCond(e)]; ok {
+			return v
+		}
 	}
 	if tv, ok := info.Types[e]; ok && tv.Value != nil {
 		return tv.Value
